@@ -2191,18 +2191,42 @@ fn query_config_json(env: &Env, src: &mut Src<'_>) -> CaseResult {
         other => known_or_violation(env, "json-roundtrip-differs:PrepareQuery", format!("{pq:?} -> {ps} -> {other:?}"), case.clone())?,
     }
     // out-of-range sizes must be rejected (QuerySize is documented as [1, 10^9])
-    let bad = match src.below(4) {
-        0 => 0u64,
-        1 => u64::from(QuerySize::MAX) + 1,
-        2 => u64::from(u32::MAX),
-        _ => src.range(u64::from(QuerySize::MAX) + 1, u64::from(u32::MAX)),
+    // (integers beyond 32 bits included: 2^32 + an in-range value must not be taken for that value)
+    let in_range = src.range(1, u64::from(QuerySize::MAX));
+    let (bad, bad_class) = match src.below(9) {
+        0 => (0u64, "0"),
+        1 => (u64::from(QuerySize::MAX) + 1, "max+1"),
+        2 => (u64::from(u32::MAX), "u32::MAX"),
+        3 => (src.range(u64::from(QuerySize::MAX) + 1, u64::from(u32::MAX)), "33-bit-range"),
+        4 => (1u64 << 32, "2^32"),
+        5 => ((1u64 << 32) + in_range, "2^32+in-range"),
+        6 => ((src.range(1, (1 << 31) - 1) << 32) + in_range, "k*2^32+in-range"),
+        7 => (u64::MAX, "u64::MAX"),
+        _ => ((1u64 << 63) + in_range, "2^63+in-range"),
     };
     let mut v: Value = serde_json::from_str(&s).unwrap();
     v["size"] = json!(bad);
     if let Ok(cfg) = serde_json::from_value::<QueryConfig>(v.clone()) {
         known_or_violation(env, "noncanonical-accepted:QuerySize", format!("query size {bad} is accepted from JSON {v}: {cfg:?}"), case.clone())?;
     }
-    labels.push("bad-size-rejected".into());
+    if let Ok(cfg) = serde_json::from_str::<QueryConfig>(&v.to_string()) {
+        known_or_violation(env, "noncanonical-accepted:QuerySize", format!("query size {bad} is accepted from the JSON text {v}: {cfg:?}"), case.clone())?;
+    }
+    // the same integers through the conversions the CLI and the HTTP layer use
+    if let Ok(q) = QuerySize::try_from(bad as usize) {
+        if bad as usize as u64 == bad {
+            known_or_violation(env, "noncanonical-accepted:QuerySize", format!("QuerySize::try_from({bad}usize) is accepted: {q:?}"), case.clone())?;
+        }
+    }
+    let neg = -((in_range & 0x3fff_ffff) as i64) - 1;
+    v["size"] = json!(neg);
+    if let Ok(cfg) = serde_json::from_value::<QueryConfig>(v.clone()) {
+        known_or_violation(env, "noncanonical-accepted:QuerySize", format!("negative query size {neg} is accepted from JSON {v}: {cfg:?}"), case.clone())?;
+    }
+    if let Ok(q) = QuerySize::try_from(neg as i32) {
+        known_or_violation(env, "noncanonical-accepted:QuerySize", format!("QuerySize::try_from({neg}i32) is accepted: {q:?}"), case.clone())?;
+    }
+    labels.push(format!("bad-size-rejected:{bad_class}"));
     // unknown helper identity in the role assignment
     let mut pv: Value = serde_json::from_str(&ps).unwrap();
     let badid = [0u64, 4, 255, 1 << 40][src.idx(4)];
@@ -2837,7 +2861,7 @@ pub fn subs(_env: &Env) -> Vec<Sub> {
         Sub::random("packing", 64, 60_000, 2_000_000, packing,
             "join_fields/split_fields (through Shuffleable::left/right/new of IndistinguishableHybridReport) for (BK,V) in {(BA8,BA3),(BA5,BA3),(BA8,BA8),(BA32,BA16),(BA3,BA3),(BA20,BA20),(BA16,BA32)} with match key (112-bit share) and {(BA8,BA3),(BA8,BA8),(BA16,BA16),(BA5,BA8),(BA8,BA16),(BA20,BA8),(BA16,BA8)} without (32-bit share): split(join(r)) = r (lossless), join and split are GF(2)-linear (what the XOR-masking shuffle relies on) and split(join(split(s))) = split(s) for arbitrary share bits - the bit layout inside the share is NOT part of the oracle; BooleanArrayWriter/Reader over BA20/BA32/BA112/BA256 with up to 12 items of {Boolean, BA3, BA5, BA8, BA16, BA20, BA32, BA64}: container = concatenation (rest untouched), reader returns the items; field bits in {zero, ones, single/last bit, random}"),
         Sub::random("query_config_json", 64, 60_000, 2_000_000, query_config_json,
-            "QueryConfig over size {1,2,10^9-1,10^9,random} x FieldType x {TestMultiply, TestAdd, TestShardedShuffle, MaliciousHybrid{max_breakdown_key, with_dp in {0,1,256,u32::MAX,random}, finite epsilon in {0,-0,subnormal,min,max,-max,5,0.1,1/3,1e-7,decimal,random bits}, plaintext_match_keys}} and PrepareQuery with all role permutations through serde_json: decode(encode(v)) = v (floats by bit pattern), re-encoding is identical; sizes 0 / >10^9 and helper identities outside 1..3 are rejected"),
+            "QueryConfig over size {1,2,10^9-1,10^9,random} x FieldType x {TestMultiply, TestAdd, TestShardedShuffle, MaliciousHybrid{max_breakdown_key, with_dp in {0,1,256,u32::MAX,random}, finite epsilon in {0,-0,subnormal,min,max,-max,5,0.1,1/3,1e-7,decimal,random bits}, plaintext_match_keys}} and PrepareQuery with all role permutations through serde_json: decode(encode(v)) = v (floats by bit pattern), re-encoding is identical; sizes 0, 10^9+1 .. u32::MAX, 2^32, k*2^32 + an in-range value, 2^63 + in-range, u64::MAX and negative sizes - through serde_json from a value and from text and through QuerySize::try_from(usize / i32) - and helper identities outside 1..3 are rejected"),
         Sub::random("query_config_http", 96, 200, 5_000, query_config_http,
             "6 generated QueryConfigs per case sent with IpaHttpClient::create_query and prepare_query (HTTP/2 without TLS, loopback) to a TestServer: the handler receives exactly the configuration and roles that were sent (query string built by the client, parsed by the server's extractor, then JSON route parameters)")
             .streams(4).shrink_iters(10),
